@@ -351,6 +351,21 @@ class Batch:
         self.lines = []
         self.meta = []  # (index of the sreq line, case dict, impl string)
         self.cur_spec = None
+        self.found = {}  # key -> (simplicity, args of ctx.disagree): the smallest case per key is reported
+
+    def _found(self, key, what, case, **kw):
+        pdu = case.get("pdu", "")
+        simp = (len(pdu), case.get("state") != [1, None, None], case.get("mask", "").count("0"), case.get("dt", 1) != 1,
+                len(case.get("model", "")), pdu)
+        if key not in self.found or simp < self.found[key][0]:
+            self.found[key] = (simp, (key, what, case), kw)
+
+    def finish(self):
+        """report the disagreements: all-switches-on ones first, smallest request first"""
+        for key in sorted(self.found, key=lambda k: ("mask=111111111" not in k, self.found[k][0], k)):
+            _, a, kw = self.found[key]
+            self.ctx.disagree(*a, **kw)
+        self.found = {}
 
     def add(self, real, mask, pre, dt, pdu, raw, hrec, impl, label):
         if self.cur_spec != real.spec:
@@ -376,14 +391,14 @@ class Batch:
                 continue
             model, iso = mo.split(" iso=")
             if model != impl:
-                ctx.disagree(classify(case, impl, model, "code-vs-model"),
+                self._found(classify(case, impl, model, "code-vs-model"),
                              f"virtual ECU differs from the rule-chain model: request {case['pdu']} mask {case['mask']} "
                              f"state {case['state']}: impl `{impl}` expected `{model}`",
                              case, impl=impl, model=model, spec_violated=True, site="UDSServer.respond")
             if iso != "-":
                 impl_iso = " ".join(impl.split()[1:5]) if impl.startswith("ok") else impl
                 if impl_iso != iso:
-                    ctx.disagree(classify(case, impl, "ok " + iso + " hc=?", "code-vs-iso"),
+                    self._found(classify(case, impl, "ok " + iso + " hc=?", "code-vs-iso"),
                                  f"virtual ECU differs from the ISO default response behaviour: request {case['pdu']} "
                                  f"state {case['state']}: impl `{impl}` ISO `{iso}`",
                                  case, impl=impl, model=iso, spec_violated=True, site="UDSServer.respond")
@@ -403,12 +418,19 @@ def one(batch, real, mask, pre, adv, pdu, label):
 
 # ------------------------------------------------------------------------------------------------------------------
 def run(ctx):
+    batch = Batch(ctx)
+    try:
+        _run(ctx, batch)
+    finally:
+        batch.finish()
+
+
+def _run(ctx, batch):
     env = make_env(ctx.seed)
     rng = ctx.rng
     ctx.rule = ("single requests against a real RandomUDSServer from an explicit pre-state; distinct = distinct (model, "
                 "switch subset, pre-state, idle, request bytes); non-trivial = the service is known to the ECU somewhere "
                 "or the request has >= 2 bytes or a switch is off")
-    batch = Batch(ctx)
     cfgs = model_configs(ctx, env, rng)
     masks, mask_text = mask_sets(ctx)
     reals = []
@@ -418,6 +440,26 @@ def run(ctx):
         except Exception as e:  # randomize() itself failing is not C13's subject, but must not go unnoticed
             ctx.disagree(f"c13:randomize-raised:{type(e).__name__}", f"RandomUDSServer.randomize raised {e!r}",
                          {"seed": seed, "params": params_json(params)}, spec_violated=False, site="RandomUDSServer.randomize")
+    # the hypotheses of the theorems (`Ready`, `Closed`) on the real model provider
+    for real in reals:
+        svcs = real.server.services
+        probs = []
+        if 1 not in svcs:
+            probs.append("default session not offered")
+        for sess, d in svcs.items():
+            for sid, sfs in d.items():
+                if (int(sid) in SUBFN) != (sfs is not None):
+                    probs.append(f"session {sess} service {int(sid):#x}: sub-function list {'missing' if sfs is None else 'unexpected'}")
+                if int(sid) == 0x10 and sfs is not None:
+                    for t in sfs:
+                        if int(t) not in svcs:
+                            probs.append(f"session {sess}: session control lists {int(t)} which the ECU does not offer")
+        ctx.ev()
+        if probs:
+            ctx.disagree("c13:model-provider:" + probs[0].split(":")[0].split(" ")[0], "RandomUDSServer.randomize built a model outside the "
+                         "theorems' hypotheses (Ready / Closed): " + "; ".join(probs[:5]),
+                         {"seed": real.seed, "params": params_json(real.params), "model": real.spec}, impl=probs[:5], model="Ready and Closed",
+                         spec_violated=False, site="RandomUDSServer.randomize")
     ctx.notes["models"] = len(reals)
     ctx.notes["model_sessions"] = [len(r.server.services) for r in reals]
     known_any = {}
